@@ -4,6 +4,8 @@ import (
 	"fmt"
 	"os"
 	"runtime"
+	"sort"
+	"strings"
 	"sync"
 	"time"
 )
@@ -131,16 +133,19 @@ func SampleFootprint() Footprint {
 	return Footprint{Goroutines: runtime.NumGoroutine(), FDs: n}
 }
 
-// StableFootprint samples until five consecutive samples agree; ok=false when 400 samples never did.
-func StableFootprint(every time.Duration) (fp Footprint, samples int, ok bool) {
+// StableFootprint samples until five consecutive samples agree (footprint and the activity counter, e.g. bytes in the
+// WARC files, which is not part of the result); ok=false when 400 samples never did.
+func StableFootprint(every time.Duration, activity func() int64) (fp Footprint, samples int, ok bool) {
 	run := 0
+	var act int64 = -1
 	for samples = 1; samples <= 400; samples++ {
 		runtime.GC()
 		s := SampleFootprint()
-		if s == fp {
+		a := activity()
+		if s == fp && a == act {
 			run++
 		} else {
-			fp, run = s, 1
+			fp, act, run = s, a, 1
 		}
 		if run >= 5 {
 			return fp, samples, true
@@ -154,4 +159,47 @@ func StableFootprint(every time.Duration) (fp Footprint, samples int, ok bool) {
 func GoroutineDump() string {
 	buf := make([]byte, 1<<22)
 	return string(buf[:runtime.Stack(buf, true)])
+}
+
+// GoroutineCensus groups the live goroutines by their top frame and creation site.
+func GoroutineCensus() map[string]int {
+	out := map[string]int{}
+	for _, g := range strings.Split(GoroutineDump(), "\n\n") {
+		lines := strings.Split(g, "\n")
+		if len(lines) < 2 {
+			continue
+		}
+		top := lines[1]
+		if i := strings.IndexByte(top, '('); i > 0 {
+			top = top[:i]
+		}
+		by := ""
+		for _, l := range lines {
+			if strings.HasPrefix(l, "created by ") {
+				by = strings.TrimPrefix(l, "created by ")
+				if i := strings.Index(by, " in goroutine"); i > 0 {
+					by = by[:i]
+				}
+			}
+		}
+		out[top+" <- "+by]++
+	}
+	return out
+}
+
+// CensusDiff lists the groups whose size differs.
+func CensusDiff(a, b map[string]int) []string {
+	var out []string
+	for k, v := range a {
+		if b[k] != v {
+			out = append(out, fmt.Sprintf("%s: %d -> %d", k, v, b[k]))
+		}
+	}
+	for k, v := range b {
+		if _, ok := a[k]; !ok {
+			out = append(out, fmt.Sprintf("%s: 0 -> %d", k, v))
+		}
+	}
+	sort.Strings(out)
+	return out
 }
